@@ -111,17 +111,17 @@ CHECKS = {
         "rule": ("One history = one server (wait confirmation), one real IggyProducer and 1-2 real IggyConsumers built through IggyClient over the SDK's own TcpClient. Seeded settings: "
                  "1-3 partitions; producer batch size {none,1,2,3,10,1000}, send interval {none,1ms,3ms}, partitioning {default, balanced, partition id, key}, 4-13 calls drawn from "
                  "send / send_one / send_with_partitioning(partition|key) / send_to(other stream and/or topic), optional client-side encryption; consumer single (one partition) or group (1-2 members), "
-                 "strategy {next, offset(0), first, last}, batch size {1,2,3,5,10,100}, commit mode {disabled+manual, polling, all, each, every n-th, interval, interval-or-polling, interval-or-each}, "
+                 "strategy {next, offset(0), first, last}, batch size {1,2,3,5,10,100}, commit mode {disabled+manual, polling, all, each, every n-th, interval, interval-or-polling, interval-or-each, after-each, after-all, after-every-n-th (via consume_messages)}, "
                  "2-5 phases in which a member consumes a seeded number of messages and is then (2/3) dropped and re-created with the same identity on the same or a fresh client. "
                  "A tap on the transport's request/response boundary records every fetch (offsets returned) and offset commit; the driver logs every yielded message into the same sequence; "
                  "stored offsets are read from the server at quiescent points. Oracles: every produced message is stored exactly once in the addressed stream/topic/partition (same key => same partition, "
                  "call order kept), yields are in offset order without gaps or repeats within an incarnation and equal the log's content, no commit beyond the last fetched offset and (consumption modes) beyond the last "
                  "yielded message, a re-created next-strategy consumer starts at stored offset + 1, every message of the consumer's partitions is yielded (exactly once without re-creation). "
                  "evaluations = histories; non-trivial = at least one message yielded; distinct_nontrivial = distinct (settings class, number of re-creations) pairs."),
-        "assumptions": COMMON_ASSUMPTIONS + ["Completeness ('every message is yielded') is a bounded-progress reading: a consumer that stays idle for 350 ms with messages left and no fault is reported as never yielding them.",
+        "assumptions": COMMON_ASSUMPTIONS + ["Completeness ('every message is yielded') is a bounded-progress reading: a consumer that answers 40 consecutive polls without yielding, with messages left and no fault, is reported as never yielding them.",
                                              "first/last strategies are judged on safety only (order, no repeats, content, commit bounds); with fetch-time commit modes, messages fetched but not yet yielded when the consumer is dropped may be skipped after re-creation (the statement bounds those commits by 'fetched').",
                                              "Two-member groups: cross-member exactly-once and the resume clause are not asserted across rebalancing (buffered messages of a reassigned partition may legitimately be seen twice).",
-                                             "AutoCommitAfter modes (consume_messages extension) are not driven."],
+                                             "AutoCommitAfter modes are driven through IggyConsumerMessageExt::consume_messages, where every phase is one incarnation on its own client."],
     },
     "C13": {
         "level": "exploration",
@@ -233,7 +233,7 @@ MANIFEST_TEXT = {
             "design_ref": "DESIGN.md §4 C12", "level_note": "Trusted base: the offline checker; hook H4 schedule points with a seeded policy. Schedules are sampled, not enumerated.",
             "technique": "runtime monitoring: client-boundary history + final-log (version order) checker under stress and injected delays"},
     "C20": {"level_text": "Exploration: the real IggyProducer/IggyConsumer (over the SDK's TcpClient) against the real server across seeded producer/consumer settings and drop/re-create points; a transport tap records fetches and commits, the driver records yields, stored offsets are read at quiescence; offline oracles for delivery to the addressed stream/topic/partition, in-order exactly-once yields, commit bounds and resume-after-commit.",
-            "design_ref": "DESIGN.md §4 C20", "level_note": "Trusted base: the event log (tap + driver) and the final logs read with a raw client; bounded-progress reading of completeness (350 ms idle).",
+            "design_ref": "DESIGN.md §4 C20", "level_note": "Trusted base: the event log (tap + driver) and the final logs read with a raw client; bounded-progress reading of completeness (a consumer that answers 40 polls without yielding is idle).",
             "technique": "runtime monitoring: client-boundary event log (fetch/commit/yield) checked against the final partition logs and stored offsets"},
     "C13": {"level_text": "Exploration: structure-aware generation of every command value, encoded by the SDK and decoded by the server's own decoder (equality + validation on both sides), journal and on-disk encodings round-tripped, TCP-vs-HTTP differential reads of boundary-valued entities and messages against what was sent, and hostile malformed-frame sessions next to a model-checked healthy connection.",
             "design_ref": "DESIGN.md §4 C13", "level_note": "Trusted base: the value generators (they decide which values count as well-formed: those the SDK's own validate() accepts) and derived PartialEq of the command types; hook H6 (re-export of the server's command decoder).",
